@@ -101,8 +101,9 @@ EXTRA = {
                                     'assert({n}.kind_s() == SyntaxKind::LoopContinue ==> w_ok(txt("continue"@), sig_leaves({n})));']},
     'convert_math': {'ensures': [VERBATIM], 'serves': 'C07 C09'},
     'convert_ident': {'ensures': [LEAF_EXACT], 'serves': 'C10'},
-    'convert_strong': {'proof': ['reveal_strlit("*");']},
-    'convert_emph': {'proof': ['reveal_strlit("_");']},
+    'convert_strong': {'proof': ['reveal_strlit("*");', 'pf_markup_container({n}); let ghost ch = {n}.children_s(); pf_children({n}); pf_sig(ch[0]); pf_sig(ch[2]); pf_token_text(ch[0]); pf_token_text(ch[2]); reveal_with_fuel(sig_concat, 4); assert(ch.drop_last().drop_last().drop_last() =~= Seq::<&SyntaxNode>::empty()); assert(sig_concat(ch) =~= sig_leaves(ch[0]) + sig_leaves(ch[1]) + sig_leaves(ch[2])); lemma_w_algebra();']},
+    'convert_emph': {'proof': ['reveal_strlit("_");', 'pf_markup_container({n}); let ghost ch = {n}.children_s(); pf_children({n}); pf_sig(ch[0]); pf_sig(ch[2]); pf_token_text(ch[0]); pf_token_text(ch[2]); reveal_with_fuel(sig_concat, 4); assert(ch.drop_last().drop_last().drop_last() =~= Seq::<&SyntaxNode>::empty()); assert(sig_concat(ch) =~= sig_leaves(ch[0]) + sig_leaves(ch[1]) + sig_leaves(ch[2])); lemma_w_algebra();']},
+    'convert_content_block': {'proof': ['reveal_strlit("["); reveal_strlit("]"); assert("["@ =~= seq![\'[\']); assert("]"@ =~= seq![\']\']);', 'pf_markup_container({n}); let ghost ch = {n}.children_s(); pf_children({n}); pf_sig(ch[0]); pf_sig(ch[2]); pf_token_text(ch[0]); pf_token_text(ch[2]); reveal_with_fuel(sig_concat, 4); assert(ch.drop_last().drop_last().drop_last() =~= Seq::<&SyntaxNode>::empty()); assert(sig_concat(ch) =~= sig_leaves(ch[0]) + sig_leaves(ch[1]) + sig_leaves(ch[2])); lemma_w_algebra();']},
     'convert_ref': {'proof': ['reveal_strlit("@"); reveal_with_fuel(pieces, 4);'], 'ensures': ['[target_exact C10] pieces(r@).len() >= 2 && pieces(r@)[0] == txt("@"@) && pieces(r@)[1] == txt(ast::Ref({n}).target_s())'], 'serves': 'C10'},
     'convert_expr_flow': {'requires': ['{n}.kind_s() != SyntaxKind::Markup', '[only_for_keyword_expression_nodes] matches!({n}.kind_s(), SyntaxKind::Contextual | SyntaxKind::Conditional | SyntaxKind::WhileLoop | SyntaxKind::FuncReturn | SyntaxKind::ModuleInclude)']},
     'convert_list_item_like': {'requires': ['matches!({n}.kind_s(), SyntaxKind::ListItem | SyntaxKind::EnumItem | SyntaxKind::TermItem)']},
@@ -156,7 +157,7 @@ W_PROVED = {
     'convert_show_rule', 'convert_heading', 'convert_list_item_like', 'convert_math_attach', 'convert_math_frac', 'convert_math_root',
     'convert_import_item_path', 'convert_import_item_renamed', 'convert_binary',
     # wrappers
-    'convert_expr_with_optional_paren', 'convert_field_access',
+    'convert_expr_with_optional_paren', 'convert_field_access', 'convert_content_block', 'convert_strong', 'convert_emph',
     'convert_contextual', 'convert_conditional', 'convert_while_loop', 'convert_return', 'convert_include',
     'convert_list_item', 'convert_enum_item', 'convert_term_item',
     # leaves and dispatchers
